@@ -61,7 +61,9 @@ func init() {
 		// "stops when covered" is decided by estimateDeficit: the size it measures, the fee formula it prices it
 		// with and the split into standard and data bytes
 		rule{name: "G-size", run: ruleGSize}, rule{name: "G-fee", run: ruleGFee}, rule{name: "P-est", run: rulePEst},
-		rule{name: "T-tmpl", run: func(c *Ctx) { ruleTTmplOnly(c, map[string]bool{"IsData": true, "IsP2PKH": true, "IsP2PKHInscription": true}) }})
+		rule{name: "T-tmpl", run: func(c *Ctx) {
+			ruleTTmplOnly(c, map[string]bool{"IsData": true, "IsP2PKH": true, "IsP2PKHInscription": true})
+		}})
 	register("C11", "G-size G-fee G-pred P-est T-tmpl G-sum", nil, rule{name: "G-size", run: ruleGSize}, rule{name: "G-fee", run: ruleGFee}, rule{name: "G-fee", run: ruleGQuote}, rule{name: "G-pred", run: ruleGPred}, rule{name: "P-est", run: rulePEst}, rule{name: "G-clone", run: ruleGClone}, rule{name: "G-sum", run: ruleGSum}, rule{name: "T-tmpl", run: func(c *Ctx) {
 		ruleTTmplOnly(c, map[string]bool{"IsData": true, "IsP2PKH": true, "IsP2PKHInscription": true})
 	}})
